@@ -11,12 +11,13 @@ SELFTEST = {"Kind": "selftest", "Mask": 0, "Cols": 6, "Rows": 3, "Rounds": [
     {"Chain": [{"M": "new", "C": 1, "R": 1, "W": 2, "H": 1}], "Op": {"K": "fill"}},
     {"Chain": [{"M": "new", "C": 1, "R": 1, "W": 2, "H": 1}], "Op": {"K": "set", "C": 0, "R": 0}},
     {"Chain": [{"M": "new", "C": 0, "R": 0, "W": 3, "H": 2}], "Op": {"K": "print", "Segs": ["ab"]}},
+    {"Chain": [{"M": "new", "C": 1, "R": 1, "W": 3, "H": 1}], "Op": {"K": "set0", "C": 0, "R": 0}},
 ]}
 
 
 def binding_selftest(c, drv, specs):
     """Vacuity guard: a known-good trace must be accepted, and the same trace with ONE recorded
-    field changed must be rejected (three different fields)."""
+    field changed must be rejected (four different fields)."""
     rp = os.path.join(c.scratch, "selftest.json")
     json.dump(SELFTEST, open(rp, "w"))
     td = c.drive(drv, "c11", sub="selftest", replay=rp, shards=1)
@@ -31,7 +32,10 @@ def binding_selftest(c, drv, specs):
     def m_width(chk):
         chk[2]["items"][0]["w"] = 2       # the logged cluster width is not the real one
 
-    variants = [("good", None), ("chain", m_chain), ("coord", m_coord), ("width", m_width)]
+    def m_auto(chk):
+        chk[3]["mk"][1] = 1               # the logged width of the cell left to be measured is not the terminal's
+
+    variants = [("good", None), ("chain", m_chain), ("coord", m_coord), ("width", m_width), ("auto", m_auto)]
     d = os.path.join(c.scratch, "selftest-variants")
     os.makedirs(d, exist_ok=True)
     for i, (name, mutate) in enumerate(variants):      # one shard per variant, scenario id = variant index
@@ -56,8 +60,8 @@ def binding_selftest(c, drv, specs):
     for i, (name, _) in enumerate(variants[1:], 1):
         if i not in hit:
             raise vcheck.Inconclusive("binding self-test: corrupted field '%s' was accepted (vacuous trace spec)" % name)
-    c.notes.append("binding self-test: reference trace accepted; 3/3 single-field corruptions (chain size, coordinate, "
-                   "cluster width) rejected")
+    c.notes.append("binding self-test: reference trace accepted; 4/4 single-field corruptions (chain size, coordinate, "
+                   "cluster width, width of a cell left to be measured) rejected")
     return True
 
 
@@ -70,7 +74,9 @@ def sig_of(rej, scn=None):
             det = "%s:%s" % (d.get("k"), "changed" if d.get("ch") else "unchanged") if d.get("k") != "alt" else "alt"
         except ValueError:
             det = "?"
-    return "C11:%s:%s%s" % (rej.get("op"), why, (":" + det) if det else "")
+    # the text holds a cluster whose width on the scenario's terminal is not the Unicode tables' width
+    tw = ":termwidth" if rej.get("tw") and det != "cluster-cut" else ""
+    return "C11:%s:%s%s%s" % (rej.get("op"), why, (":" + det) if det else "", tw)
 
 
 def reduce_round(scn, rnd):
@@ -98,8 +104,13 @@ def main(c):
         "a tab stands for 8 blanks (the library's tab policy); the end of a styled segment is a line-break opportunity",
         "after a cluster wider than the whole window, or a line break handed to a single-line helper, only containment is demanded",
         "a line break following a completely filled row may start one or two new rows (documentation leaves it open)",
-        "set cell / fill are exercised with narrow and two-cell markers; a two-cell marker half outside the clip is only "
-        "required not to escape",
+        "set cell / fill are exercised with narrow and two-cell markers, the width stated in the cell or left at 0 for "
+        "the library to measure; a cell left to be measured is as wide as the scenario's terminal shows its cluster (logged "
+        "fact: code points added up without Unicode core, Unicode cluster width with it); a wider-than-one cell is accepted "
+        "iff all its columns are; one that is not is only required not to escape; of a fill with a wider-than-one cell only "
+        "containment, the content of what changed and the glyph in the clip's first column are demanded",
+        "text clusters whose width depends on the terminal ('☺'+VS16, a letter + U+FF9E) are judged with the width of the "
+        "scenario's terminal; on explicit-width terminals only those that Unicode measures wider than one cell",
     ]
     selftest_ok = True
     heap(4096)
@@ -107,7 +118,8 @@ def main(c):
         quick = c.tier == "quick"
         runs = [("MC_Clip.tla", "MC_Clip.cfg"), ("MC_Clip.tla", "MC_Clip2D.cfg"), ("MC_Text.tla", "MC_Text.cfg")]
         if not quick:
-            runs += [("MC_Clip.tla", "MC_Clip_deep.cfg"), ("MC_Clip.tla", "MC_Clip2D_deep.cfg"), ("MC_Text.tla", "MC_Text_deep.cfg")]
+            runs += [("MC_Clip.tla", "MC_Clip_deep.cfg"), ("MC_Clip.tla", "MC_Clip2D_deep.cfg"), ("MC_Text.tla", "MC_Text_deep.cfg"),
+                     ("MC_Text.tla", "MC_Text_width_deep.cfg")]
         with cf.ThreadPoolExecutor(max_workers=3) as ex:
             list(ex.map(lambda r: c.model_check(specs, r[0], r[1], workers=5), runs))
         heap(1536)
@@ -152,4 +164,8 @@ def main(c):
              "judged by Clip/TextLayout through RefTerm; depth-1 trees enumerate every mode x offset x size in -2..6 on a 4x3 "
              "screen (thorough: all 19683, quick: seeded 5%), deeper trees and long strings are seeded random, strings over "
              "{narrow, space, wide, combining, tab, newline} are enumerated up to length 3 (quick) / 4 (thorough) for every "
-             "helper and window width 0..5; distinct = distinct (tree, call) pairs")
+             "helper and window width 0..5; cells whose width is stated or left to be measured are set and filled at and around "
+             "the right edge of windows ending inside, on and beyond the screen's edge and cut by a parent (5x3 screen, quick: "
+             "seeded third); strings over {narrow, space, wide, emoji+VS16, +U+FF9E} holding a cluster whose width depends on "
+             "the terminal are enumerated up to length 3 (quick: seeded quarter) / 4 for every helper, width 1..5 and the four "
+             "width-measuring capability sets; distinct = distinct (tree, call) pairs")
